@@ -12,6 +12,7 @@ import (
 	"sort"
 	"strconv"
 	"strings"
+	"sync/atomic"
 	"testing"
 	"time"
 
@@ -61,12 +62,12 @@ func (c *c19Conn) Close() error {
 }
 
 type c19Case struct {
-	maxKeys, maxConns   int
-	maxLife, stale      int64
-	progs               [][]string // ops: g<k> r u d c s
-	sched               []string   // "<task>[:pick]" | "t<d>" | "b<c>"
-	script              []string   // adaptive directives (generation only): the above, or "U<task>:<label prefix>"
-	style               string
+	maxKeys, maxConns int
+	maxLife, stale    int64
+	progs             [][]string // ops: g<k> r u d c s
+	sched             []string   // "<task>[:pick]" | "t<d>" | "b<c>"
+	script            []string   // adaptive directives (generation only): the above, or "U<task>:<label prefix>"
+	style             string
 }
 
 type c19Run struct {
@@ -231,6 +232,18 @@ func (r *c19Run) handout(w int, cn *c19Conn) {
 
 const c19Patience = 30 * time.Second
 
+// c19Stuck counts the steps that did not come back: once the code under test has blocked twice
+// the generous patience is pointless (a broken tree blocks in hundreds of cases), 3 s is enough
+// to tell the remaining ones.
+var c19Stuck int32
+
+func c19CurPatience() time.Duration {
+	if atomic.LoadInt32(&c19Stuck) >= 2 {
+		return 3 * time.Second
+	}
+	return c19Patience
+}
+
 // stepTask runs one step of task i and returns the schedule entry actually taken and the label reached.
 func (r *c19Run) stepTask(i int) (entry, lab string, stuck bool) {
 	entry = strconv.Itoa(i)
@@ -244,9 +257,11 @@ func (r *c19Run) stepTask(i int) (entry, lab string, stuck bool) {
 	if i < len(r.returning) {
 		ret = r.returning[i]
 	}
-	_, err := r.s.Step(i, c19Patience)
+	patience := c19CurPatience()
+	_, err := r.s.Step(i, patience)
 	if err != nil {
-		r.violate("C19/blocked", fmt.Sprintf("task %d parked at %s did not reach another synchronisation point within %v", i, before, c19Patience))
+		atomic.AddInt32(&c19Stuck, 1)
+		r.violate("C19/blocked", fmt.Sprintf("task %d parked at %s did not reach another synchronisation point within %v", i, before, patience))
 		return entry, "STUCK", true
 	}
 	r.scanChans()
@@ -890,6 +905,12 @@ func TestVerifC19Pool(t *testing.T) {
 	}
 	n := vh.N(3000)
 	for i := 0; i < n; i++ {
+		if atomic.LoadInt32(&c19Stuck) >= 25 {
+			// the tree under test blocks: 25 replayable violations are on record, further cases only cost time
+			out.Note(fmt.Sprintf("stopped after %d of %d cases: %d steps blocked inside the code under test", i, n, atomic.LoadInt32(&c19Stuck)))
+			out.Stat("stopped-early.blocked")
+			break
+		}
 		r := vh.NewRng(vh.Seed()*1000003 + uint64(i))
 		c19Run1(c19Gen(r), out)
 	}
